@@ -2,14 +2,16 @@
    the model typechecker.  Statements only; to be merged into Properties_C01.v.
 
    WellTyped is the declarative judgment of Src/TypecheckSpec.v (tc_program p = OK <-> WellTyped p).
-   eval_ready (Src/TypeSafetyBase.v) is a decidable syntactic side condition; each of its three
-   clauses excludes programs the model typechecker accepts and the evaluator is stuck on (Examples
-   below):
-     (S1) no `let`/`var` initialiser is the literal nil (or a block ending in it),
-     (S2) no operand of == / != is the literal nil,
-     (S3) in a run of consecutive nested function items no function mentions a function that
-          follows it in the run (forward reference: the typechecker declares the run together,
-          the evaluator binds the names one by one).
+   eval_ready (Src/TypeSafetyBase.v) is a decidable syntactic side condition with one clause:
+     (S1) no `let`/`var` initialiser is the literal nil (or a block ending in it).
+   It excludes programs the typechecker accepts although one nil cell is then used at two record
+   types: the evaluator is stuck on them (Example side_condition_S1_needed) and the real
+   implementation crashes -- a defect of the language implementation, not of the model.
+   The two former clauses are gone, since the evaluator now has the rules they stood for:
+     (S2) `==` / `!=` between a reference (record, array, function) and nil,
+     (S3) adjacent nested function items are declared together (mutually visible).
+   The programs that witnessed them now satisfy eval_ready and evaluate to what the real compiler
+   and VM compute (Examples former_side_condition_S2 / S3).
    main_fits: the entry function exists, its parameters are ints, one argument per parameter. *)
 From Coq Require Import ZArith NArith List Bool.
 From NV Require Import Src.Syntax Src.Eval Src.Types Src.Typecheck Src.TypecheckSpec
@@ -47,12 +49,10 @@ Print Assumptions core_type_safety_tc.
 (* preservation + progress for one evaluation: S types the cells (index -> type) for ever;
    env realises the context G in S; the state is typed by S.  The result is never RStuck, the
    final state is typed by an extension S' of S, a result cell has type t' in S' -- where t' = t
-   unless e is the nil literal, whose consumer picks the record type (accepts t' CNil).
-   P = names G declares that env does not bind yet (later functions of a run); e does not
-   mention them (part of ready_expr P e).  P = [] at the top level. *)
-Theorem eval_type_safe : forall R genv fuel G e t k t' env st S P r st',
-  HasType R G e (t, k) -> ready_expr P e = true -> accepts t' t = true ->
-  env_ok genv S G env P -> st_ok R genv S st ->
+   unless e is the nil literal, whose consumer picks the record type (accepts t' CNil). *)
+Theorem eval_type_safe : forall R genv fuel G e t k t' env st S r st',
+  HasType R G e (t, k) -> ready_expr e = true -> accepts t' t = true ->
+  env_ok genv S G env -> st_ok R genv S st ->
   eval genv fuel env st e = (r, st') ->
   r <> RStuck /\
   exists S', ext S st S' st' /\ st_ok R genv S' st' /\
@@ -60,9 +60,9 @@ Theorem eval_type_safe : forall R genv fuel G e t k t' env st S P r st',
 Proof. exact TypeSafety.eval_type_safe. Qed.
 Print Assumptions eval_type_safe.
 
-Theorem eval_type_safe_nonnil : forall R genv fuel G e t k env st S P r st',
-  HasType R G e (t, k) -> ready_expr P e = true -> t <> Types.CNil ->
-  env_ok genv S G env P -> st_ok R genv S st ->
+Theorem eval_type_safe_nonnil : forall R genv fuel G e t k env st S r st',
+  HasType R G e (t, k) -> ready_expr e = true -> t <> Types.CNil ->
+  env_ok genv S G env -> st_ok R genv S st ->
   eval genv fuel env st e = (r, st') ->
   r <> RStuck /\
   exists S', ext S st S' st' /\ st_ok R genv S' st' /\
@@ -70,9 +70,9 @@ Theorem eval_type_safe_nonnil : forall R genv fuel G e t k env st S P r st',
 Proof. exact TypeSafety.eval_type_safe_nonnil. Qed.
 Print Assumptions eval_type_safe_nonnil.
 
-Theorem eval_items_type_safe : forall R genv fuel G items t k t' env st S P r st',
-  ItemsOk R ([] :: G) false None items (t, k) -> ready_items P items = true -> accepts t' t = true ->
-  env_ok genv S G env P -> st_ok R genv S st ->
+Theorem eval_items_type_safe : forall R genv fuel G items t k t' env st S r st',
+  ItemsOk R ([] :: G) false None items (t, k) -> ready_items items = true -> accepts t' t = true ->
+  env_ok genv S G env -> st_ok R genv S st ->
   eval_items genv fuel env st items None = (r, st') ->
   r <> RStuck /\
   exists S', ext S st S' st' /\ st_ok R genv S' st' /\
@@ -80,11 +80,11 @@ Theorem eval_items_type_safe : forall R genv fuel G items t k t' env st S P r st
 Proof. exact TypeSafety.eval_items_type_safe. Qed.
 Print Assumptions eval_items_type_safe.
 
-Theorem handlers_type_safe : forall R genv fuel G ret cs call env st S P ex r st',
+Theorem handlers_type_safe : forall R genv fuel G ret cs call env st S ex r st',
   CatchesOk R G ret cs -> CallOk R G ret call ->
-  forallb (fun c => ready_items P (snd c)) cs = true ->
-  match call with None => true | Some b => ready_items P b end = true ->
-  env_ok genv S G env P -> st_ok R genv S st ->
+  forallb (fun c => ready_items (snd c)) cs = true ->
+  match call with None => true | Some b => ready_items b end = true ->
+  env_ok genv S G env -> st_ok R genv S st ->
   handlers genv fuel env st ex cs call = (r, st') ->
   r <> RStuck /\
   exists S', ext S st S' st' /\ st_ok R genv S' st' /\
@@ -110,16 +110,41 @@ Proof. exact TypeSafety.ex_run_hyps. Qed.
 Example ex_run_result : run_program 50 ex_run [] = OResult (Eval.CInt 5) [].
 Proof. exact TypeSafety.ex_run_runs. Qed.
 
-(* each side condition is needed: accepted by the model typechecker, stuck in the evaluator *)
+(* the side condition is needed: accepted by the model typechecker, stuck in the evaluator *)
 Example side_condition_S1_needed :
   tc_program stuck_nil_alias = OK /\ main_fits stuck_nil_alias [] = true /\
   eval_ready stuck_nil_alias = false /\ run_program 50 stuck_nil_alias [] = OStuck.
 Proof. exact TypeSafety.stuck_nil_alias_accepted_and_stuck. Qed.
-Example side_condition_S2_needed :
-  tc_program stuck_eq_nil = OK /\ main_fits stuck_eq_nil [] = true /\
-  eval_ready stuck_eq_nil = false /\ run_program 50 stuck_eq_nil [] = OStuck.
-Proof. exact TypeSafety.stuck_eq_nil_accepted_and_stuck. Qed.
-Example side_condition_S3_needed :
-  tc_program stuck_mutual = OK /\ main_fits stuck_mutual [] = true /\
-  eval_ready stuck_mutual = false /\ run_program 50 stuck_mutual [] = OStuck.
-Proof. exact TypeSafety.stuck_mutual_accepted_and_stuck. Qed.
+
+(* the former side conditions are not needed any more: the programs that were stuck are covered by
+   the theorem and evaluate to the results of the real compiler + VM (source text in
+   Src/TypeSafety.v) *)
+(* r == nil ? 1 : 0  on a record r  -- 0 *)
+Example former_side_condition_S2 :
+  tc_program ex_eq_nil = OK /\ main_fits ex_eq_nil [] = true /\
+  eval_ready ex_eq_nil = true /\ run_program 50 ex_eq_nil [] = OResult (Eval.CInt 0) [].
+Proof. exact TypeSafety.ex_eq_nil_ready_and_runs. Qed.
+(* records, arrays and functions against nil, both operand orders, == and !=  -- 12121 *)
+Example former_side_condition_S2_all_kinds :
+  tc_program ex_nil_cmp = OK /\ main_fits ex_nil_cmp [] = true /\
+  eval_ready ex_nil_cmp = true /\ run_program 50 ex_nil_cmp [] = OResult (Eval.CInt 12121) [].
+Proof. exact TypeSafety.ex_nil_cmp_ready_and_runs. Qed.
+(* func f(x) { g(x) }; func g(x) { x + 1 }; f(1)  -- 2 *)
+Example former_side_condition_S3 :
+  tc_program ex_mutual = OK /\ main_fits ex_mutual [] = true /\
+  eval_ready ex_mutual = true /\ run_program 50 ex_mutual [] = OResult (Eval.CInt 2) [].
+Proof. exact TypeSafety.ex_mutual_ready_and_runs. Qed.
+(* mutual recursion of adjacent nested functions; a sibling hides a top-level function  -- 102 *)
+Example former_side_condition_S3_mutual_recursion :
+  tc_program ex_even_odd = OK /\ main_fits ex_even_odd [] = true /\
+  eval_ready ex_even_odd = true /\ run_program 200 ex_even_odd [] = OResult (Eval.CInt 102) [].
+Proof. exact TypeSafety.ex_even_odd_ready_and_runs. Qed.
+Example former_side_conditions_instance : forall fuel,
+  run_program fuel ex_nil_cmp [] <> OStuck /\ run_program fuel ex_even_odd [] <> OStuck.
+Proof.
+  intros fuel. split.
+  - destruct TypeSafety.ex_nil_cmp_ready_and_runs as [H1 [H2 [H3 _]]].
+    exact (TypeSafety.core_type_safety_tc ex_nil_cmp H1 H3 fuel [] H2).
+  - destruct TypeSafety.ex_even_odd_ready_and_runs as [H1 [H2 [H3 _]]].
+    exact (TypeSafety.core_type_safety_tc ex_even_odd H1 H3 fuel [] H2).
+Qed.
